@@ -300,6 +300,109 @@ def deferred_state(chk: Check, repo: Repo) -> None:
     chk.ob("state-follows-the-processed-telegram", st.site(), "self.update_value" not in reach and "self.process" not in reach and not direct and "self.xknx.telegrams.put_nowait" in reach, f"set() -> send_raw() calls {sorted(x for x in reach if x.startswith('self.'))}: queues the telegram, does not update the value itself", key="defer|set")
 
 
+def clamp_methods(chk: Check, repo: Repo, mod: str, cname: str) -> dict[str, str]:
+    """methods of the class that are clamps: (value, lo, hi) -> lo only where value < lo, hi only where value > hi, else
+    value.  Decided on the CFG: every return is one of the three parameters, a bound only under its comparison."""
+    out: dict[str, str] = {}
+    cls = repo.cls(mod, cname)
+    for name, f in cls.methods.items():
+        ps = [a.arg for a in f.node.args.args[1:]]
+        if len(ps) != 3:
+            continue
+        c = CFG(f.node)
+        rets = [n for n in c.nodes if n.kind == "stmt" and isinstance(n.ast, ast.Return)]
+        if not rets or c.falls_off_end() or not all(isinstance(r.ast.value, ast.Name) and r.ast.value.id in ps for r in rets):
+            continue
+        v, lo, hi = ps
+        facts = c.must_facts()
+        def under(nid: int, texts: set[str]) -> bool:
+            return any((t, True) in facts.get(nid, frozenset()) for t in texts)
+        ok = True
+        seen_plain = False
+        for r in rets:
+            rid = r.ast.value.id
+            if rid == v:
+                seen_plain = True
+            elif rid == lo:
+                ok &= under(r.id, {f"{v} < {lo}", f"{lo} > {v}"})
+            elif rid == hi:
+                ok &= under(r.id, {f"{v} > {hi}", f"{hi} < {v}"})
+        if len({r.ast.value.id for r in rets}) < 2:
+            continue  # not a clamp at all (identity / constant)
+        chk.unit(f)
+        chk.ob("clamp-returns-a-bound-only-beyond-it", f.site(), ok and seen_plain, f"{cname}.{name}({v}, {lo}, {hi}): returns {sorted({r.ast.value.id for r in rets})}; a bound is returned only under its comparison", key=f"clamp|{cname}.{name}")
+        if ok and seen_plain:
+            out[name] = v
+    return out
+
+
+def cover_fallback(chk: Check, repo: Repo) -> None:
+    """Cover.set_position without a position address: the direction table over the ordering of requested and current
+    position (abstract path enumeration over the CFG; the tests are decided per cell, nothing runs)."""
+    from ..explore import Explorer
+    f = repo.func("xknx.devices.cover", "Cover.set_position")
+    chk.unit(f)
+    cfg = CFG(f.node)
+    param = f.node.args.args[1].arg
+    CUR = "self.travelcalculator.current_position()"
+    OPEN, CLOSED = "self.travelcalculator.position_open", "self.travelcalculator.position_closed"
+    ORD = {"lt": (0, 1), "eq": (1, 1), "gt": (1, 0)}
+
+    def decide(e: ast.AST, cell: tuple) -> bool | None:
+        kind, sub = cell
+        t = ast.unparse(e)
+        if t == "self.position_target.writable":
+            return False
+        if isinstance(e, ast.Compare) and len(e.ops) == 1:
+            l, r, op = ast.unparse(e.left), ast.unparse(e.comparators[0]), e.ops[0]
+            if {l, r} == {CUR, "None"} and isinstance(op, (ast.Is, ast.IsNot, ast.Eq, ast.NotEq)):
+                return (kind == "unknown") == isinstance(op, (ast.Is, ast.Eq))
+            if {l, r} == {param, CUR}:
+                if kind != "known":
+                    raise AnalysisError("Cover.set_position compares against an unknown current position")
+                p_, c_ = ORD[sub]
+                a, b = (p_, c_) if l == param else (c_, p_)
+                table = {ast.Lt: a < b, ast.Gt: a > b, ast.LtE: a <= b, ast.GtE: a >= b, ast.Eq: a == b, ast.NotEq: a != b}
+                if type(op) in table:
+                    return table[type(op)]
+            for end, nm in ((OPEN, "open"), (CLOSED, "closed")):
+                if {l, r} == {param, end} and isinstance(op, (ast.Eq, ast.NotEq)):
+                    return (sub == nm) == isinstance(op, ast.Eq)
+        return None
+
+    def step(node, env):
+        if node.kind == "test":
+            v = decide(cfg.symbolic(node.id, node.ast), env["cell"])
+            if v is None:
+                return None
+            return [("true" if v else "false", env)]
+        if node.kind == "stmt" and node.ast is not None:
+            acts = []
+            for x in ast.walk(node.ast):
+                if isinstance(x, ast.Call):
+                    n = call_name(x)
+                    if n in ("self.updown.up", "self.updown.down"):
+                        acts.append(n.rsplit(".", 1)[1].upper())
+                    elif n == "self._start_position_update":
+                        tp = next((k.value for k in x.keywords if k.arg == "target_position"), x.args[0] if x.args else None)
+                        acts.append("TRAVEL_TO_REQUESTED" if tp is not None and ast.unparse(cfg.symbolic(node.id, tp)) == param else "TRAVEL_TO_OTHER")
+                    elif n == "self.position_target.set":
+                        acts.append("POSITION_TELEGRAM")
+            if acts:
+                e2 = dict(env); e2["acts"] = env["acts"] + tuple(acts)
+                return [(lab, e2) for lab in sorted({l for _, l in node.succ if l != "exc"})]
+        return None
+    reference = {
+        ("known", "lt"): ("UP", "TRAVEL_TO_REQUESTED"), ("known", "eq"): (), ("known", "gt"): ("DOWN", "TRAVEL_TO_REQUESTED"),
+        ("unknown", "open"): ("UP", "TRAVEL_TO_REQUESTED"), ("unknown", "closed"): ("DOWN", "TRAVEL_TO_REQUESTED"), ("unknown", "other"): (),
+    }
+    for cell, ref in reference.items():
+        paths = Explorer(cfg, repo, step=step).run(cfg.entry, [], {"cell": cell, "acts": ()})
+        got = sorted({p.env["acts"] for p in paths if p.end == cfg.exit})
+        chk.ob("cover-fallback-direction", f.site(), got == [ref], f"no position address, current position {cell[0]}, requested {cell[1]}: {got}; reference {ref} (0 = open = up; already in position sends nothing)", key=f"coverfb|{cell[0]}|{cell[1]}")
+
+
+
 def climate(chk: Check, repo: Repo) -> None:
     cm = "xknx.devices.climate"
     ss = repo.func(cm, "Climate.set_setpoint_shift")
@@ -322,19 +425,44 @@ def climate(chk: Check, repo: Repo) -> None:
             delta += [n.value for n in walk_local(tt.node) if isinstance(n, ast.Assign) and len(n.targets) == 1 and isinstance(n.targets[0], ast.Name) and n.targets[0].id == a.id]
         else:
             delta.append(a)
-    newt = [c for c in calls(ss.node) if call_name(c) == "self.target_temperature.set"]
-    shift_set = [c for c in calls(ss.node) if call_name(c) == "self._setpoint_shift.set" and len(c.args) == 1 and isinstance(c.args[0], ast.Name)]
-    if len(base_ret) != 1 or len(delta) != 1 or len(newt) != 1 or len(shift_set) != 1 or len(rd) != 1:
+    newt = [n for n in cfg.nodes if n.kind == "stmt" and n.ast is not None and any(isinstance(x, ast.Call) and call_name(x) == "self.target_temperature.set" and len(x.args) == 1 for x in ast.walk(n.ast))]
+    if len(base_ret) != 1 or len(delta) != 1 or len(newt) != 1 or len(wr) != 1 or len(rd) != 1:
         raise AnalysisError("Climate: setpoint arithmetic not found")
+    # the value handed to the shift datapoint, as a function of the requested offset (reaching definitions, not names)
+    off_param = ss.node.args.args[1].arg
+    shift_call = [x for x in ast.walk(wr[0].ast) if isinstance(x, ast.Call) and call_name(x) == "self._setpoint_shift.set"][0]
+    if len(shift_call.args) != 1:
+        raise AnalysisError("Climate: _setpoint_shift.set call shape")
+    sent = cfg.symbolic(wr[0].id, shift_call.args[0])
+    clampers = clamp_methods(chk, repo, cm, "Climate")
+    def is_requested(e: ast.AST) -> bool:
+        if isinstance(e, ast.Name) and e.id == off_param:
+            return True
+        if isinstance(e, ast.Call) and call_name(e) in {f"self.{m}" for m in clampers}:
+            a0 = e.args[0] if e.args else next((k.value for k in e.keywords if k.arg == clampers[call_name(e)[5:]]), None)
+            return isinstance(a0, ast.Name) and a0.id == off_param
+        return False
+    chk.ob("shift-sent-is-the-requested-offset", ss.site(), is_requested(sent), f"_setpoint_shift.set receives {ast.unparse(sent)} for the requested `{off_param}` (allowed: the offset itself, or the offset clamped by {sorted(clampers)})", key="climate|sent")
     a_d, b_d = affine(delta[0], tt.node.args.args[1].arg, {})  # offset as a function of the requested target
-    off_local = shift_set[0].args[0].id  # the (validated) offset that is sent as the shift
-    base_local = rd[0].ast.targets[0].id  # the local copy of base_temperature taken before the shift changes
-    a_n, b_n = affine(newt[0].args[0], off_local, {})
-    # new target = a_n*offset + b_n with offset = a_d*T + b_d; the base symbol is shared: `self.base_temperature` vs its local copy
-    b_d2 = LP({tuple(((base_local if s_ == "self.base_temperature" else s_), e) for s_, e in k): v for k, v in b_d.t.items()})
-    comp_a, comp_b = a_n * a_d, a_n * b_d2 + b_n
+    # the broadcast target as a function of the value that was sent as the shift
+    tcall = [x for x in ast.walk(newt[0].ast) if isinstance(x, ast.Call) and call_name(x) == "self.target_temperature.set"][0]
+    target_sym = cfg.symbolic(newt[0].id, tcall.args[0])
+    sent_dump = ast.dump(sent)
+
+    class _Sub(ast.NodeTransformer):
+        def generic_visit(self, node):
+            if ast.dump(node) == sent_dump:
+                return ast.Name(id="__sent__", ctx=ast.Load())
+            return super().generic_visit(node)
+        def visit(self, node):
+            if ast.dump(node) == sent_dump:
+                return ast.Name(id="__sent__", ctx=ast.Load())
+            return super().visit(node)
+    target_in_sent = _Sub().visit(target_sym)
+    a_n, b_n = affine(target_in_sent, "__sent__", {})
+    comp_a, comp_b = a_n * a_d, a_n * b_d + b_n
     ok2 = comp_a == LP.const(1) and comp_b == LP()
-    chk.ob("requested-target-is-what-the-shift-produces", tt.site(), ok2, f"offset = ({a_d})*T + ({b_d}); new target = ({a_n})*offset + ({b_n}); composition ({comp_a})*T + ({comp_b}) (unclamped)", key="climate|algebra")
+    chk.ob("requested-target-is-what-the-shift-produces", tt.site(), ok2, f"offset = ({a_d})*T + ({b_d}); new target = ({a_n})*sent + ({b_n}) with sent = {ast.unparse(sent)}; composition ({comp_a})*T + ({comp_b}) (unclamped)", key="climate|algebra")
     br = base_ret[0].value
     chk.ob("base-is-target-minus-shift", bt.site(), ast.unparse(br) == "self.target_temperature.value - self._setpoint_shift.value", f"base_temperature = {ast.unparse(br)}", key="climate|base")
 
@@ -348,5 +476,6 @@ def run(chk: Check, repo: Repo) -> None:
     truncation_lint(chk, repo)
     deferred_state(chk, repo)
     climate(chk, repo)
+    cover_fallback(chk, repo)
     chk.rule("E7 finite loop-back tables by cell evaluation of the extracted conditions; affine-map extraction over Laurent polynomials and inverse check; truncation lint; ownership census of the state attribute; dominance of the base read over the shift write")
     chk.assume("rounding / clamping to the datapoint's range is not modelled (nearest-value clause is not decided)")
